@@ -4,7 +4,7 @@ Payload: {'sem': {...} | None, 'cases': [case, ...]}.  See harness/props/c11.py 
 the descriptors.  Every class is created from generated source under a unique
 class name; every located value (label, descriptor) is built once per case, so
 equal labels are the same object."""
-import sys, os, dataclasses, enum, math, operator
+import sys, os, dataclasses, enum, math, operator, decimal
 sys.path.insert(0, os.path.dirname(os.path.abspath(__file__)))
 from _util import *
 from c11_ast import repr_canon, source_canon
@@ -31,8 +31,44 @@ class U:
     pass
 
 
+class EqAll:
+    """an object with a non-standard __eq__: equal to everything (and hashable)"""
+    def __init__(self, i):
+        self.i = i
+
+    def __repr__(self):
+        return 'EqAll#%d' % self.i
+
+    def __eq__(self, other):
+        return True
+
+    def __ne__(self, other):
+        return False
+
+    def __hash__(self):
+        return 0
+
+
 TOK = {'enum': list(Color), 'user': [U() for _ in range(4)], 'bareobj': [object() for _ in range(4)],
        'type': [int, str, float, tuple], 'fn': [len, abs, repr, hash]}
+EQALL = [EqAll(i) for i in range(6)]
+
+# ---- capture of `_locals` (name -> OBJECT) of every generated function: hook H1 records the closure
+# NAMES only; the dict itself is still in `FunctionBuilder.functions` when create_functions is entered.
+CAPTURED = []
+_orig_create_functions = fb.FunctionBuilder.create_functions
+
+
+def _capturing_create_functions(self, *a, **k):
+    try:
+        for _name, _fn in self.functions.items():
+            CAPTURED.append({'name': _name, 'locals': _fn['locals']})
+    except BaseException:  # noqa
+        pass
+    return _orig_create_functions(self, *a, **k)
+
+
+fb.FunctionBuilder.create_functions = _capturing_create_functions
 
 ALIAS = {'==': 'EQ', '!=': 'NE', '<': 'LT', '<=': 'LE', '>': 'GT', '>=': 'GE', 'is': 'IS', 'is not': 'IS_NOT',
          '+': 'IS_TRUTHY', '!': 'IS_FALSY'}
@@ -64,6 +100,10 @@ def build(d):
         return {build(k): build(v) for k, v in d['v']}
     if t == 'tok':
         return TOK[d['k']][d['id']]
+    if t == 'dec':
+        return decimal.Decimal(d['v'])
+    if t == 'eqall':
+        return EQALL[d['id']]
     if t == 'inst':                      # an instance of the nested class of the current history
         return NESTED_INSTANCES[d['i']]
     raise ValueError(t)
@@ -327,6 +367,7 @@ def run_case(c):
           'json_key': json_key, 'V1Alias': V1Alias, 'ClassVar': ClassVar, 'InitVar': InitVar, '_PI': {},
           '__name__': 'c11_gen'}
     reg0 = len(fb._VERIF_REGISTRY) if fb._VERIF_REGISTRY is not None else 0
+    cap0 = len(CAPTURED)
     out = {}
     try:
         name, src, meta_kw = class_source(c, ns, table)
@@ -416,6 +457,18 @@ def run_case(c):
             out['source'] = source_canon(mine[0]['source'])
             out['source_text'] = mine[0]['source'][:4000]
             out['closure'] = [n for n in mine[0]['closure'] if n.startswith('_skip') or n.startswith('_default')]
+    cap = [r for r in CAPTURED[cap0:] if r['name'] == 'cls_asdict']
+    if cap:
+        # which located object does each `_skip*` local hold? (label of the identical object, by `is`)
+        ids = out['ids']
+        binding = []
+        for n, obj in cap[0]['locals'].items():
+            if not n.startswith('_skip'):
+                continue
+            lbl = next((ids[str(k)] for k in sorted(table) if table[k] is obj), None)
+            binding.append([n, lbl])
+        out['binding'] = binding
+    del CAPTURED[:]
     return out
 
 
@@ -472,6 +525,7 @@ def run_history(h):
     'nested' = the nested instances as they appear inside the enclosing class's dumps (the
     enclosing Meta cascades)."""
     table = {}
+    del CAPTURED[:]
     ns = new_ns()
     ci, co = h['inner'], h['outer']
     out = {'steps': []}
